@@ -262,6 +262,7 @@ theorem step_WT (dcf : String → Option String) (s : CState) (e : Ev) (hw : WT 
         have hit : WT sch ucs (setItem sch ucs dcf st it).1 := by
           cases it with
           | var sc n a => cases sc <;> cases a <;> simp only [setItem] <;> first | exact h | exact hall _ st h
+          | varRef n r => simp only [setItem]; split; exact hall _ st h; exact h
           | names c coll =>
             cases c with
             | none => exact hall _ st h
